@@ -1,18 +1,31 @@
 #!/usr/bin/env bash
 # usage: seed_check.sh <patch.diff> [tier] [property ids...]
-# Applies the patch to /repo, runs the registered checks, reverts it.
+# Applies the patch to the analysed tree, runs the registered checks, reverts it.
+# Default: the tree is /repo and the checks are the registered ./run.sh commands.
+# For long batches set SEED_REPO=<scratch worktree of /repo at the same commit>
+# and SEED_GV=<frozen copy of bin/gverif>: the same analysis then runs against
+# the scratch tree (GVERIF_REPO) with its evidence under SEED_HOME, so /repo,
+# /verif/evidence and the analyser sources stay free for other work.
 set -u
 patch="$(readlink -f "$1")"; tier="${2:-quick}"; shift; shift 2>/dev/null
 props="$*"
 [ -n "$props" ] || props=$(jq -r '.checks[].property_id' /verif/MANIFEST.json)
-cd /repo
-[ -z "$(git status --porcelain)" ] || { echo "SEEDCHECK-ERROR /repo not clean"; exit 2; }
+repo="${SEED_REPO:-/repo}"
+cd "$repo"
+[ -z "$(git status --porcelain)" ] || { echo "SEEDCHECK-ERROR $repo not clean"; exit 2; }
 git apply "$patch" || { echo "SEEDCHECK-ERROR patch does not apply"; exit 2; }
-trap 'git -C /repo checkout -- . ; git -C /repo clean -fdq' EXIT
+trap 'git -C "$repo" checkout -- . ; git -C "$repo" clean -fdq' EXIT
 caught=""
-mkdir -p /tmp/seedcheck_ev
+if [ -n "${SEED_GV:-}" ]; then
+  home="${SEED_HOME:-/tmp/seed_home}"; mkdir -p "$home/evidence"
+  cp /verif/properties.jsonl /verif/known_findings.json "$home/"
+fi
 for p in $props; do
-  out=$(cd /verif && GVERIF_HOME_EVIDENCE= ./run.sh $p $tier 2>&1); rc=$?
+  if [ -n "${SEED_GV:-}" ]; then
+    out=$(GOFLAGS=-mod=mod GOPROXY=off GOSUMDB=off GOTOOLCHAIN=local GOWORK=off GVERIF_REPO="$repo" GVERIF_HOME="$home" "$SEED_GV" check -property $p -tier $tier 2>&1); rc=$?
+  else
+    out=$(cd /verif && ./run.sh $p $tier 2>&1); rc=$?
+  fi
   if [ $rc -eq 1 ]; then caught="$caught $p"; echo "--- $p exit=1"; echo "$out" | grep -E '^\s+\[' | head -4 | cut -c1-260; 
   elif [ $rc -ne 0 ]; then echo "--- $p exit=$rc (BROKEN)"; echo "$out" | grep BROKEN | head -3 | cut -c1-300; caught="$caught $p(broken)"; fi
 done
